@@ -192,7 +192,7 @@ fn attr_choice(c: u64, pos: usize) -> (String, Val) {
 pub fn run_c16(ctx: &Ctx, rep: &mut Report) {
     // (a) every value string <= 4 (5) symbols x method x position x newline
     {
-        let maxlen = if ctx.thorough() { 5 } else { 4 };
+        let maxlen = if ctx.thorough() { 6 } else { 4 };
         let strings = mccore::strings_upto_count(13, maxlen);
         let radices = [strings, 2, 5, 2];
         let n = product(&radices);
